@@ -1,0 +1,1 @@
+//! Verification facade (cfg-gated): header_ex family.  See `crate::verif`.
